@@ -718,3 +718,11 @@ mod tests {
         );
     }
 }
+
+#[cfg(simple_dns_verif)]
+impl<'a> Label<'a> {
+    /// verification hook: raw bytes of this label
+    pub fn verif_bytes(&self) -> &[u8] {
+        &self.data
+    }
+}
